@@ -298,6 +298,88 @@ pub fn families() -> Vec<Box<dyn Family>> {
             },
         ),
         family(
+            "all_scalar_values",
+            "EVERY Unicode scalar value (U+0000 ..= U+10FFFF without the surrogates), 256 per case, each between ASCII letters and once directly after a CR and before an LF: x 6 tokenizers x {[u8], str} - characters whose code point merely shares low bits with LF / CR / blank (U+010A, U+010D, U+0A0A, U+2020, ...) must not be taken for them",
+            true,
+            4,
+            |cfg| if cfg.tiny { 4 } else { 0x110000 / 256 },
+            |idx, cfg, out| {
+                let mut t = String::new();
+                for k in 0..256u32 {
+                    let cp = idx as u32 * 256 + k;
+                    if let Some(c) = char::from_u32(cp) {
+                        t.push('a');
+                        t.push(c);
+                        t.push('b');
+                        if k % 64 == 7 {
+                            t.push('\r');
+                            t.push(c);
+                            t.push('\n');
+                        }
+                    }
+                }
+                if t.is_empty() {
+                    return; // the surrogate block
+                }
+                out.sample(|| format!("U+{:04X}..U+{:04X} between ASCII letters", idx * 256, idx * 256 + 255));
+                out.nontrivial(&idx);
+                out.count("scalar_value_blocks");
+                check_input(t.as_bytes(), cfg.tiny, out);
+            },
+        ),
+        family(
+            "alignments",
+            "the same G-TXT texts (and a 70 KB boring text with late rare features) handed over as SUB-SLICES starting at every address alignment 0..7 of one allocation (a scanner that reads machine words must not depend on where the input starts): all checks on each, and identical token boundaries at all eight alignments",
+            false,
+            8,
+            |cfg| cfg.n(4_000, 80_000),
+            |idx, cfg, out| {
+                let mut rng = Rng::for_case(cfg.seed, "c06.alignments", idx);
+                let t: Vec<u8> = if idx % 40 == 39 && !cfg.tiny {
+                    text_gen::long_boring_text(&mut rng, 70_000, false)
+                } else {
+                    text_gen::text_pair(&mut rng, if cfg.tiny { 2 } else { 10 }, idx % 4 == 0).0
+                };
+                if t.is_empty() {
+                    return;
+                }
+                out.sample(|| format!("{} bytes at 8 alignments: {}", t.len(), show(&t[..t.len().min(60)])));
+                out.nontrivial(&t);
+                let mut buf: Vec<u8> = Vec::with_capacity(t.len() + 16);
+                let mut seen: Vec<Vec<Vec<usize>>> = Vec::new();
+                for k in 0..8usize {
+                    buf.clear();
+                    buf.extend(std::iter::repeat(b'#').take(k));
+                    buf.extend_from_slice(&t);
+                    let view = &buf[k..];
+                    out.count("aligned_views_tokenized");
+                    if (view.as_ptr() as usize) % 8 != (buf.as_ptr() as usize + k) % 8 {
+                        continue;
+                    }
+                    check_input(view, cfg.tiny, out);
+                    // token boundaries per tokenizer at this alignment (str when valid, else bytes)
+                    let bounds: Vec<Vec<usize>> = (0..4usize)
+                        .map(|which| {
+                            crate::engine::guard(|| match std::str::from_utf8(view) {
+                                Ok(sv) => tokenize_str(which, sv).iter().map(|x| x.len()).collect::<Vec<usize>>(),
+                                Err(_) => Vec::new(),
+                            })
+                            .unwrap_or_default()
+                        })
+                        .collect();
+                    seen.push(bounds);
+                }
+                if let Some(first) = seen.first() {
+                    for (k, b) in seen.iter().enumerate() {
+                        if b != first {
+                            out.violation("tok.depends_on_alignment", format!("the same text tokenizes differently when it starts at address alignment {} than at alignment 0 | input={}", k, show(&t)));
+                            break;
+                        }
+                    }
+                }
+            },
+        ),
+        family(
             "block_boundaries",
             "a feature (CRLF, lone CR, LF, CR CR LF, a blank, é, U+2028, an emoji, an invalid byte) placed so that it starts 3, 2, 1, 0 bytes before / 1 byte after every power-of-two offset B in {4096, 8192, 16384, 32768, 65536, 131072} of an otherwise boring ASCII text (implementations that scan in blocks must not split or miss it) x 6 tokenizers x {[u8], str when valid}",
             true,
